@@ -389,6 +389,9 @@ struct Emitter
         bool neg; unsigned long long num, den;
         litParts (v, neg, num, den);
         std::ostringstream s;
+        // a literal that is not num / 2^k with k < 64 (e.g. 1e-9) cannot be printed exactly: emit an undefined identifier so that the
+        // generated module does not compile, instead of `num / 0` (= 0 in a field, which would silently drop the term)
+        if (den == 0 || (double) num / (double) den != std::fabs (v)) return "(literal_not_a_64_bit_dyadic_fraction : α)";
         if (den == 1) s << "(" << num << " : α)";
         else s << "((" << num << " : α) / (" << den << " : α))";
         return neg ? "(-" + s.str () + ")" : s.str ();
